@@ -110,7 +110,7 @@ func vImports(n int, sparse bool) {
 	// symbolically, the last package lives in a nested directory whose path repeats
 	// the module path (example.com/m/cmd/example.com/m): legal, and a trap for
 	// code that derives the directory by textual surgery on the import path
-	nestedLast := !sparse && n >= 2 && verifsym.Bool()
+	nestedLast := !sparse && n >= 2 && n <= 3 && verifsym.Bool()
 	rel := func(i int) string {
 		if nestedLast && i == n-1 {
 			return "cmd/" + mod
